@@ -42,6 +42,7 @@ ASSUMPTIONS = [
 ]
 
 GATES = {
+    "bc32-digit-only-corpus": ["bc32:digits-only-text"],
     "codec-monitors-ran": ["bech32.bc32encode", "bech32.bc32decode", "bech32.cbor_encode", "bech32.cbor_decode", "bcur.bcur_encode", "bcur.bcur_decode"],
     "transport-monitors-ran": ["BCURSingle.encode", "BCURSingle.parse", "BCURMulti.encode", "BCURMulti.parse"],
     "cbor-boundaries": [
@@ -493,6 +494,15 @@ def transports_workload(ctx, rng, idx, n, p):
         transport(ctx, _rand_payload(rng, ln), sz, singles=(i % 4 == 0))
         if ctx.out_of_time():
             return
+    # committed corpus: payloads whose bc32 text consists of digits only (no letter at all - about 1 payload in
+    # 10^6; found once with the reference encoder by tools/gen_c20_digit_corpus.py)
+    import json
+    import os
+
+    cpath = os.path.join(os.path.dirname(os.path.dirname(os.path.abspath(__file__))), "corpus", "c20_digit_only_bc32.json")
+    for item in json.load(open(cpath)):
+        ctx.count("bc32:digits-only-text")
+        codec_case(ctx, bytes.fromhex(item["payload"]))
     # the large payloads (2-byte/4-byte CBOR length boundary): few, they cost seconds each
     for k in range(p["large"]):
         ln = LARGE_LENGTHS[(idx + k) % len(LARGE_LENGTHS)] if k < 5 else rng.randrange(60000, 70001)
